@@ -28,6 +28,12 @@ NCPU = os.cpu_count() or 4
 # the tree under test; /repo unless VERIF_REPO points at a scratch worktree (used only when trying seeded changes)
 REPO = os.environ.get("VERIF_REPO", "/repo")
 
+if REPO != "/repo":
+    # trying a seeded change: never overwrite the committed evidence or the replays of the real tree
+    REPLAYS = os.path.join(WORK, "trial", "replays")
+    EVID = os.path.join(WORK, "trial", "evidence")
+    os.makedirs(EVID, exist_ok=True)
+
 GOENV = dict(os.environ, GOFLAGS="-mod=mod", GOPROXY="off", GOSUMDB="off", GOTOOLCHAIN="local",
              CGO_ENABLED=os.environ.get("CGO_ENABLED", "1"))
 GO = shutil.which("go1.26") or shutil.which("go1.26.8") or "go"
